@@ -18,28 +18,64 @@
 #define H_I 1
 #define H_D 0
 #endif
-static PedersenVSS *mkpvss(size_t i) { Z P(H_P), Q(H_Q), G(H_G), Hh(H_H); return new PedersenVSS(H_N, H_T, i, P, Q, G, Hh, 2, 2, false, ""); }
 #define H_O (3 - H_I - H_D)        /* the third party when n = 3 */
+#ifndef H_OT
+#define H_OT 0
+#endif
+#ifndef H_RWHO
+#define H_RWHO H_O     /* who-value of the dealer's public answer: concrete per slice (it is used as a std::map key) */
+#endif
+#ifndef H_AFULL
+#define H_AFULL 1
+#endif
+#ifndef H_CUT
+#define H_CUT 1
+#endif
+#ifndef H_SLO
+#define H_SLO (-H_Q)
+#endif
+#ifndef H_RLO
+#define H_RLO 0
+#endif
+static PedersenVSS *mkpvss(size_t i) { Z P(H_P), Q(H_Q), G(H_G), Hh(H_H); return new PedersenVSS(H_N, H_T, i, P, Q, G, Hh, 2, 2, false, ""); }
 
 // ------------------------------------------------------------------------------------------------ receiver
 H_ENTRY(h_pvss_recv) {
   PedersenVSS *v = mkpvss(H_I);
   VNetUnicast *aiou = vn_aiou(H_N, H_I); CachinKursawePetzoldShoupRBC *rbc = vn_rbc(H_N, H_T, H_I);
-  // dealer: commitments, then (for the public complaint resolution) up to one answer (who, s, s'); cut anywhere
+  // dealer: commitments, then (for the public complaint resolution) one answer (who, s, s'); cut anywhere.
+  // Cost control (one query must stay below ~1e5 combinations): H_AFULL=1 commitments range over [-1,p+2), else over the group;
+  // H_SLO / H_RLO = lower end of the share pair / published pair range (-q or 0); H_CUT=1 symbolic tape lengths.
   long A[H_T + 1];
-  for (unsigned k = 0; k <= H_T; ++k) { A[k] = vfh_range(-1, H_P + 2); vn_bpush(H_D, A[k]); }
+  for (unsigned k = 0; k <= H_T; ++k) {
+#if H_AFULL
+    A[k] = vfh_range(-1, H_P + 2);
+#else
+    static const long GEL[3] = { 1, H_G, (H_G * H_G) % H_P };          // members used: 1, g, g^2 (all of G for q = 3)
+    A[k] = GEL[vf_nondet_below(3)];
+#endif
+    vn_bpush(H_D, A[k]);
+  }
 #if H_N > 2
-  long rwho = vfh_range(0, H_N + 1), rs = vfh_range(-H_Q, H_Q + 1), rt = vfh_range(-H_Q, H_Q + 1);
+  long rwho = H_RWHO, rs = vfh_range(H_RLO, H_Q + 1), rt = vfh_range(H_RLO, H_Q + 1);
   vn_bpush(H_D, rwho); vn_bpush(H_D, rs); vn_bpush(H_D, rt);
 #endif
-  unsigned dlen = vn_bcut(H_D);
-  long sig = vfh_range(-H_Q, H_Q + 1), tau = vfh_range(-H_Q, H_Q + 1);
+  long sig = vfh_range(H_SLO, H_Q + 1), tau = vfh_range(H_SLO, H_Q + 1);
   vn_upush(H_D, sig); vn_upush(H_D, tau);
-  unsigned ulen = vn_ucut(H_D);
+#if H_CUT
+  unsigned dlen = vn_bcut(H_D), ulen = vn_ucut(H_D);
+#else
+  unsigned dlen = vn_bl[H_D], ulen = 2;
+#endif
 #if H_N > 2
-  // third party: up to three complaint values (a value >= n is the end marker); cut anywhere
-  long w[3]; for (unsigned k = 0; k < 3; ++k) { w[k] = vfh_range(0, H_N + 1); vn_bpush(H_O, w[k]); }
-  unsigned olen = vn_bcut(H_O);
+  // third party: its complaint list is CONCRETE per slice (H_OT) - a symbolic list makes the sizes of the library's complaint
+  // vectors and the shape of its std::map symbolic, which the engine cannot unroll (see notes/C15.md):
+  //  0: end marker only   1: complaint against the dealer   2: silent (timeout)   3: complaint, then silent
+  //  4: complaint against the receiver (irrelevant one)     5: the same complaint twice
+  static const long OT[6][3] = { { H_N, 0, 0 }, { H_D, H_N, 0 }, { 0, 0, 0 }, { H_D, 0, 0 }, { H_I, H_N, 0 }, { H_D, H_D, H_N } };
+  static const unsigned OTL[6] = { 1, 2, 0, 1, 2, 3 };
+  long w[3]; unsigned olen = OTL[H_OT];
+  for (unsigned k = 0; k < 3; ++k) { w[k] = OT[H_OT][k]; if (k < olen) vn_bpush(H_O, w[k]); }
 #endif
   bool ok = false;
   H_TRY(ok = v->Share((size_t)H_D, aiou, rbc, std::cerr, false));
@@ -77,5 +113,90 @@ H_ENTRY(h_pvss_recv) {
     vf_assert(counter > 0, "a dealer nobody complained about is not disqualified");
     if (counter <= H_T && !own_complained) vf_assert(o_complained && !answer_ok, "refused with at most t complaints => a public answer was missing or wrong");
   }
+  H_END();
+}
+
+// ------------------------------------------------------------------------------------------------ dealer
+// honest dealer H_I, secret and all polynomial coins symbolic; the receivers' complaint lists are concrete per slice (H_CT):
+//  0: nobody complains   1: the first receiver complains   2: both receivers complain (> t)   3: first receiver silent (no end marker)
+#ifndef H_CT
+#define H_CT 0
+#endif
+H_ENTRY(h_pvss_dealer) {
+  PedersenVSS *v = mkpvss(H_I);
+  VNetUnicast *aiou = vn_aiou(H_N, H_I); CachinKursawePetzoldShoupRBC *rbc = vn_rbc(H_N, H_T, H_I);
+  unsigned o1 = (H_I == 0) ? 1 : 0, o2 = (H_I == 2) ? 1 : 2;      // the other parties in ascending order (n = 3), o1 only (n = 2)
+  if (H_CT == 1 || H_CT == 2) vn_bpush(o1, H_I);
+  if (H_CT != 3) vn_bpush(o1, H_N);
+#if H_N > 2
+  if (H_CT == 2) vn_bpush(o2, H_I);
+  vn_bpush(o2, H_N);
+#endif
+  long secret = vfh_range(0, H_Q); Z S(secret);
+  bool ok = false;
+  H_TRY(ok = v->Share((mpz_srcptr)S, aiou, rbc, std::cerr, false));
+  vf_assert(vfh_exc == 0, "Share(sigma) returns");
+  long a[H_T + 1], b[H_T + 1], A[H_T + 1];
+  for (unsigned k = 0; k <= H_T; ++k) { a[k] = vfh_val(v->a_j[k]); b[k] = vfh_val(v->b_j[k]); }
+  vf_assert(a[0] == secret, "f(0) is the secret");
+  vf_assert(vn_obn >= H_T + 1, "all commitments are broadcast");
+  for (unsigned k = 0; k <= H_T; ++k) {
+    A[k] = vn_ob[k];
+    vf_assert(a[k] >= 0 && a[k] < H_Q && b[k] >= 0 && b[k] < H_Q, "coefficients are residues modulo q");
+    vf_assert(A[k] == vo_commit(a[k], b[k]) && A[k] == vfh_val(v->A_j[k]), "broadcast commitment A_k = g^a_k h^b_k");
+  }
+  for (unsigned j = 0; j < H_N; ++j) if (j != H_I) {
+    vf_assert(vn_osn[j] == 2, "every receiver is sent exactly one pair");
+    long sj = vn_sent(j, 0), tj = vn_sent(j, 1);
+    vf_assert(sj == vo_poly(a, H_T, j + 1) && tj == vo_poly(b, H_T, j + 1), "the pair sent to P_j is (f(j+1), f'(j+1)) modulo q");
+    vf_assert(vo_commit(sj, tj) == vo_eval(A, H_T, j + 1), "the pair sent to P_j passes the share check against the broadcast commitments");
+  }
+  if (H_CT == 0 || H_CT == 3) vf_assert(ok && vn_obn == H_T + 1, "no complaint: the dealer finishes and publishes nothing else");
+  if (H_CT == 1 && H_T >= 1) {
+    vf_assert(ok && vn_obn == H_T + 4, "one complaint: the dealer finishes after one public answer");
+    vf_assert(vn_ob[H_T + 1] == (long)o1 && vn_ob[H_T + 2] == vn_sent(o1, 0) && vn_ob[H_T + 3] == vn_sent(o1, 1), "the public answer is the complainer's index and exactly the pair sent before");
+  }
+  if ((H_CT == 1 && H_T == 0) || H_CT == 2) vf_assert(!ok, "more than t complaints: the dealer gives up (disqualified)");
+  if (ok) vf_assert(vfh_val(v->sigma_i) == vo_poly(a, H_T, H_I + 1) && vfh_val(v->tau_i) == vo_poly(b, H_T, H_I + 1), "the dealer's own share is (f(i+1), f'(i+1))");
+  H_END();
+}
+
+// ------------------------------------------------------------------------------------------------ reconstruction
+// receiver H_I holds an honest dealing (coefficients symbolic); the other non-dealer parties offer arbitrary pairs.
+//  n = 3: t+1 = 2 shares needed: own + the third party's, which must verify;  n = 4 (H_N4): third party arbitrary, fourth honest:
+//  the wrong share is filtered and the secret still comes out.
+H_ENTRY(h_pvss_reconstruct) {
+  PedersenVSS *v = mkpvss(H_I);
+  CachinKursawePetzoldShoupRBC *rbc = vn_rbc(H_N, H_T, H_I);
+  long a[H_T + 1], b[H_T + 1], A[H_T + 1];
+  for (unsigned k = 0; k <= H_T; ++k) { a[k] = vfh_range(0, H_Q); b[k] = vfh_range(0, H_Q); A[k] = vo_commit(a[k], b[k]); mpz_set_si(v->A_j[k], A[k]); }
+  long si = vo_poly(a, H_T, H_I + 1), ti = vo_poly(b, H_T, H_I + 1);
+  vf_assume(si != 0 && ti != 0);       // the library treats a zero component as "no share stored" (stated exceptional set, see notes)
+  mpz_set_si(v->sigma_i, si); mpz_set_si(v->tau_i, ti);
+  // offered pairs: arbitrary from the first other party (incl. out-of-range and one value beyond the exponentiation table), honest from the rest
+  long os_ = vfh_range(-H_Q, H_Q + 2), ot = vfh_range(-H_Q, H_Q + 2);
+#ifdef H_BIG
+  if (os_ == H_Q + 1) os_ = H_BIG; if (ot == H_Q + 1) ot = H_BIG;        // a value with more bits than TMCG_MAX_FPOWM_T
+#else
+  vf_assume(os_ <= H_Q && ot <= H_Q);
+#endif
+  unsigned first = H_N; bool first_ok = false;
+  for (unsigned j = 0; j < H_N; ++j) if (j != H_I && j != H_D) {
+    if (first == H_N) { first = j; vn_bpush(j, os_); vn_bpush(j, ot); }
+    else { vn_bpush(j, vo_poly(a, H_T, j + 1)); vn_bpush(j, vo_poly(b, H_T, j + 1)); }
+  }
+  unsigned flen = vn_bcut(first);
+  first_ok = flen == 2 && ot > -H_Q && ot < H_Q && os_ > -H_Q && os_ < H_Q && vo_commit(os_, ot) == vo_eval(A, H_T, first + 1);
+  Z out; mpz_set_si(out, -77);
+  bool ok = false;
+  H_TRY(ok = v->Reconstruct((size_t)H_D, out, rbc, std::cerr));
+  vf_assert(vfh_exc == 0, "Reconstruct returns (no exception escapes)");
+  vf_assert(vn_obn == 2 && vn_ob[0] == si && vn_ob[1] == ti, "the party broadcasts its own pair");
+#if H_N == 3
+  vf_assert(ok == first_ok, "n = 3, t = 1: reconstruction succeeds exactly if the other party's pair verifies");
+#else
+  vf_assert(ok, "n = 4, t = 1: one wrong pair does not prevent reconstruction");
+#endif
+  if (ok) vf_assert(out.get() == a[0], "the reconstructed value is the dealer's secret f(0)");
   H_END();
 }
